@@ -40,7 +40,7 @@ EXCEPTIONS = [
          reason="start + total_size is the end of a region that load()'s safety contract requires to be valid memory: it cannot wrap the address space"),
     dict(fn="multiboot2::elf_sections::ElfSection::<'_>::name", kind="overflow", what="Add", leaves={"phi", "1"},
          reason="strlen over the external string table (documented exception of C01): the isize counter cannot reach isize::MAX over addressable memory"),
-    dict(fn="multiboot2_common::increase_to_alignment", kind="overflow", what="Add", leaves={"arg1", "7"},
+    dict(fn="multiboot2_common::increase_to_alignment", kind="overflow", what="Add", leaves=None, leaves_within={"arg1", "7", "8"},
          reason="all callers pass sizes below 2^33 (a u32 size plus a header, or an offset inside a slice plus that); C14 claims the function for x < 2^32 only"),
 ]
 
@@ -78,7 +78,9 @@ def match_exception(s):
     fk = s.inst["key"] if "key" in s.inst else s.inst["path"]
     base = fk.split("::{closure")[0]
     for i, e in enumerate(EXCEPTIONS):
-        if e["fn"] == base and e["kind"] == s.kind and e["what"] == s.what and leaves_of(s.terms) == e["leaves"]:
+        lv = leaves_of(s.terms)
+        if e["fn"] == base and e["kind"] == s.kind and e["what"] == s.what and \
+                (lv == e["leaves"] if e.get("leaves") is not None else (bool(lv) and lv <= e["leaves_within"])):
             return i
     return None
 
@@ -124,7 +126,7 @@ def run(ctx):
                 ctx.fail("AR", key, "%s `%s` on stored values cannot overflow, or overflows identically in all profiles" % (s.kind, s.what), s.span,
                          "undischarged: panics with overflow checks, wraps without (operands: %s)" % ", ".join(G.show(t)[:80] for t in s.terms))
     ctx.floor("AR", "arithmetic sites on the parse path", n_sites, 40)
-    stale = sorted("%s|%s|%s" % (e["fn"], e["what"], sorted(e["leaves"])) for i, e in enumerate(EXCEPTIONS) if i not in used_exc)
+    stale = sorted("%s|%s|%s" % (e["fn"], e["what"], sorted(e["leaves"] or e.get("leaves_within") or [])) for i, e in enumerate(EXCEPTIONS) if i not in used_exc)
     # a stale entry suppresses nothing (the site it named is gone): reported as a note, not a violation
     ctx.ok("AR", "exceptions-live", "exception-table entries are matched by exact site key only; entries without a site suppress nothing", "",
            how="%d entries, %d matched a site%s" % (len(EXCEPTIONS), len(used_exc), ("; unmatched (site no longer exists): %s" % [x[:90] for x in stale]) if stale else ""))
